@@ -405,6 +405,10 @@ func c02R4(p *Prog, r *Report, chains []*Chain) {
 				if ch.Root == nil && ch.Links[0].Name == "Id" {
 					return exprString(ch.Links[0].Args[0])
 				}
+				ch.Encl, ch.Pkg = c.Encl, c.Pkg
+				if nm := idCloneArg(&ch); nm != nil {
+					return exprString(nm)
+				}
 				return ""
 			}
 			opOf := func(ch Chain) string {
@@ -438,7 +442,17 @@ func c02R4(p *Prog, r *Report, chains []*Chain) {
 				}
 			}
 			if bad == "" {
-				if okN, how := nameOriginOK(p, c.Encl, init.Links[0].Args[0], map[string]bool{}, 0); !okN {
+				nameExpr := ast.Expr(nil)
+				if init.Root == nil && len(init.Links[0].Args) > 0 {
+					nameExpr = init.Links[0].Args[0]
+				} else {
+					ic := init
+					ic.Encl, ic.Pkg = c.Encl, c.Pkg
+					nameExpr = idCloneArg(&ic)
+				}
+				if nameExpr == nil {
+					bad = "index variable: not traceable"
+				} else if okN, how := nameOriginOK(p, c.Encl, nameExpr, map[string]bool{}, 0); !okN {
 					bad = "index variable: " + how
 				}
 			}
@@ -580,6 +594,12 @@ func mustAssignRule(p *Prog, r *Report, id string) {
 		n++
 		site := fmt.Sprintf("builder.(*Map).Assign/value conversion#%d", n)
 		arg := ast.Unparen(call.Args[1])
+		// a local that names the entry (`entry := assignTo.WithIndex(k).MustAssign()`) stands for it
+		if lid, isID := arg.(*ast.Ident); isID {
+			if def := localDef(info, fi.Decl, info.ObjectOf(lid)); def != nil {
+				arg = ast.Unparen(def)
+			}
+		}
 		okMust := false
 		if c2, ok := arg.(*ast.CallExpr); ok {
 			if f2, ok := calleeObj(info, c2).(*types.Func); ok && f2.Name() == "MustAssign" {
